@@ -25,6 +25,8 @@
 #include <QCryptographicHash>
 #include <QDomDocument>
 #include <QElapsedTimer>
+#include <QFile>
+#include <QDir>
 #include <QTcpSocket>
 #include <QTimer>
 #include <deque>
@@ -229,6 +231,7 @@ struct World {
     Side r { RJID };
     QXmppTransferJob *incoming = nullptr;
     QIODevice *acceptInto = nullptr;
+    QString acceptPath;  // if set: the application calls accept(filePath) and the library opens the file itself
     World()
     {
         s.mgr->setSupportedMethods(QXmppTransferJob::InBandMethod);
@@ -239,7 +242,8 @@ struct World {
         }
         QObject::connect(r.mgr, &QXmppTransferManager::fileReceived, [this](QXmppTransferJob *job) {
             incoming = job;
-            if (acceptInto) job->accept(acceptInto);
+            if (!acceptPath.isEmpty()) job->accept(acceptPath);
+            else if (acceptInto) job->accept(acceptInto);
         });
     }
 };
@@ -269,6 +273,9 @@ struct Transfer {
     bool altered = false;  // a payload was altered in transit / a block was forged in the sender's name with its session id
     bool dupRefused = false;
     std::string faultKind;        // the op of the (last) fault that hit a data block
+    QString pathMode;             // accept(filePath): the file the library writes
+    QByteArray onDiskAtFinished;  // what that file held when finished() was emitted
+    bool finishedSeen = false;
     bool senderIgnoredError = false, senderMovedOnForeignAck = false;
     static int counter;
 
@@ -279,6 +286,7 @@ struct Transfer {
         delete rj;
         W->incoming = nullptr;
         W->acceptInto = nullptr;
+        W->acceptPath.clear();
         W->s.out.clear();
         W->r.out.clear();
     }
@@ -290,7 +298,8 @@ struct Transfer {
         sidStr = QStringLiteral("sid%1").arg(++counter);
         sendBuf.setData(data);
         sendBuf.open(QIODevice::ReadOnly);
-        W->acceptInto = sink.device();
+        W->acceptInto = pathMode.isEmpty() ? sink.device() : nullptr;
+        W->acceptPath = pathMode;
         W->incoming = nullptr;
         QXmppTransferFileInfo info;
         info.setName(QStringLiteral("file.bin"));
@@ -320,7 +329,15 @@ struct Transfer {
         }
         rj = W->incoming;
         if (rj) {
-            QObject::connect(rj, &QXmppTransferJob::finished, [this]() { rFin++; });
+            QObject::connect(rj, &QXmppTransferJob::finished, [this]() {
+                rFin++;
+                if (!pathMode.isEmpty() && !finishedSeen) {
+                    // what an application that opens the file in its finished() handler sees
+                    finishedSeen = true;
+                    QFile f(pathMode);
+                    if (f.open(QIODevice::ReadOnly)) onDiskAtFinished = f.read(1 << 26);
+                }
+            });
             QObject::connect(rj, &QXmppTransferJob::progress, [this](qint64 done, qint64) { rDone = done; });
             QObject::connect(rj, QOverload<QXmppTransferJob::Error>::of(&QXmppTransferJob::error), [this](QXmppTransferJob::Error) { rErrSig++; });
         }
@@ -641,8 +658,10 @@ static void judge(Transfer &t, const Case &c, const std::string &replay)
         return;
     }
     if (t.faults == 1 && t.harmlessDups == 0 && t.otherOps == 0) {
+        // (FileAccessError counts when the receiver's own device refused data: that is what then went wrong)
         const bool reported = t.rj->state() == QXmppTransferJob::FinishedState &&
-            (t.rj->error() == QXmppTransferJob::FileCorruptError || t.rj->error() == QXmppTransferJob::ProtocolError);
+            (t.rj->error() == QXmppTransferJob::FileCorruptError || t.rj->error() == QXmppTransferJob::ProtocolError ||
+             (t.sink.lossy() && t.rj->error() == QXmppTransferJob::FileAccessError));
         if (t.rSuccess()) oracleFail("C19:fault-but-success", replay);
         else if (!reported) {
             // the block (or the answer to it) vanished and nothing follows: the library has no timeout, both jobs wait forever
@@ -808,6 +827,172 @@ static void runSocks(const QByteArray &announced, bool withHash, bool withSize, 
     w.r.mgr->setSupportedMethods(QXmppTransferJob::InBandMethod);
 }
 
+// ------------------------------------------------------------------------------------------------ accept(filePath)
+// The application lets the library open the file (QXmppTransferJob::accept(const QString &)).  Oracle only (no model
+// lines): success ⇒ the file ON DISK, as an application sees it from its finished() handler, equals the bytes sent;
+// a file that cannot hold the data (/dev/full: every flush fails with ENOSPC) must not end in success.
+static void runAcceptPath(const QByteArray &data, const QString &path, const std::string &what)
+{
+    if (path.startsWith(QStringLiteral("/verif/"))) QFile::remove(path);
+    Transfer t(4096, 4096, true, data, DevSpec());
+    t.pathMode = path;
+    const std::string label = "accept-path " + what + " size=" + std::to_string(data.size());
+    printf("I %s\n", label.c_str()); fflush(stdout);
+    const bool started = t.start();
+    if (started) {
+        long guard = 0;
+        while (t.pending && guard++ < 100000) { Ibb p = *t.pending; t.pending.reset(); t.feed(t.toReceiver(p)); }
+    }
+    QCoreApplication::processEvents();
+    QCoreApplication::processEvents();
+    const bool rOk = t.rj && t.rj->state() == QXmppTransferJob::FinishedState && t.rj->error() == QXmppTransferJob::NoError;
+    if (what == "unwritable") {
+        // the library could not open the file: nobody may report success
+        const bool sOk = t.sj->state() == QXmppTransferJob::FinishedState && t.sj->error() == QXmppTransferJob::NoError;
+        if (rOk || sOk) oracleFail("C19:accept-path-unwritable-but-success", label); else oraclePass()++;
+    } else if (what == "full") {
+        if (rOk) oracleFail("C19:accept-path-write-error-unnoticed", label); else oraclePass()++;
+    } else {
+        if (!rOk) oracleFail("C19:accept-path-honest-run-not-successful", label);
+        else if (t.onDiskAtFinished != data) oracleFail("C19:accept-path-file-incomplete-at-finished", label + " on-disk=" + std::to_string(t.onDiskAtFinished.size()));
+        else oraclePass()++;
+    }
+    stat("accept_path_runs");
+}
+
+// ------------------------------------------------------------------------------------------------ SOCKS5 sending side
+// The real QXmppTransferOutgoingJob with the bytestreams method; the harness plays the receiving peer (and, in the
+// proxy scenarios, the XEP-0065 proxy) over 127.0.0.1.  One correspondence line per scenario for the small decision
+// model (`ssend …`), plus the oracle: the sending job reports success ⇒ the peer was really connected and every byte of
+// the file was handed to the socket; a wrong <streamhost-used/>, a refused activation or a peer that goes away early
+// end in ProtocolError.
+static QString sha1Host(const QString &sid, const QString &initiator, const QString &target)
+{
+    return QString::fromUtf8(QCryptographicHash::hash((sid + initiator + target).toLatin1(), QCryptographicHash::Sha1).toHex());
+}
+static int ssendCounter = 0;
+static bool ssendAvailable = true;
+
+static void runSocksSend(const std::string &scenario, long size, Rng &rng)
+{
+    if (!ssendAvailable) { stat("socks_send_skipped"); return; }
+    World &w = *W;
+    w.s.mgr->setSupportedMethods(QXmppTransferJob::SocksMethod);
+    const bool viaProxy = scenario.rfind("proxy", 0) == 0;
+    const QString proxyJid = QStringLiteral("proxy.montague.example");
+    w.s.mgr->setProxy(viaProxy ? proxyJid : QString());
+    w.s.mgr->setProxyOnly(viaProxy);
+    QByteArray data = makeContent(size > 100000 ? "pat" : "rnd", size, rng);
+    QBuffer src; src.setData(data); src.open(QIODevice::ReadOnly);
+    const QString sid = QStringLiteral("ssend%1").arg(++ssendCounter);
+    QXmppTransferFileInfo info; info.setName(QStringLiteral("f.bin")); info.setSize(data.size());
+    info.setHash(QCryptographicHash::hash(data, QCryptographicHash::Md5));
+    w.s.out.clear();
+    std::unique_ptr<QXmppTransferJob> sj(w.s.mgr->sendFile(RJID, &src, info, sid));
+    auto cleanup = [&]() {
+        sj.reset();
+        w.s.out.clear();
+        w.s.mgr->setProxy(QString()); w.s.mgr->setProxyOnly(false);
+        w.s.mgr->setSupportedMethods(QXmppTransferJob::InBandMethod);
+    };
+    auto takeSent = [&](const char *childTag) -> QDomElement {
+        // the last stanza the sending client emitted with that child element
+        static QDomDocument doc;
+        for (auto it = w.s.out.rbegin(); it != w.s.out.rend(); ++it) {
+            QDomElement e = parseStanza(*it, doc);
+            if (e.firstChildElement().tagName() == QLatin1String(childTag)) { QDomElement r = e; w.s.out.clear(); return r; }
+        }
+        return QDomElement();
+    };
+    QDomElement offer = takeSent("si");
+    if (offer.isNull()) { fprintf(stderr, "harness: no SI offer from the SOCKS sender\n"); exit(3); }
+    // accept with the bytestreams method
+    w.s.receiveXml(QStringLiteral("<iq id=\"%1\" to=\"%2\" from=\"%3\" type=\"result\"><si xmlns=\"http://jabber.org/protocol/si\">"
+                                  "<feature xmlns=\"http://jabber.org/protocol/feature-neg\"><x xmlns=\"jabber:x:data\" type=\"submit\">"
+                                  "<field var=\"stream-method\"><value>http://jabber.org/protocol/bytestreams</value></field></x></feature></si></iq>")
+                       .arg(offer.attribute(QStringLiteral("id")), SJID, RJID));
+    QXmppSocksServer proxyServer;           // the harness-owned proxy (proxy scenarios)
+    QTcpSocket *atProxy = nullptr;
+    QObject::connect(&proxyServer, &QXmppSocksServer::newConnection, [&](QTcpSocket *s, QString, quint16) { atProxy = s; });
+    if (viaProxy) {
+        if (!proxyServer.listen()) { ssendAvailable = false; cleanup(); stat("socks_send_skipped"); return; }
+        QDomElement q = takeSent("query");  // iq get to the proxy
+        if (q.isNull()) { fprintf(stderr, "harness: sender did not query the proxy\n"); exit(3); }
+        w.s.receiveXml(QStringLiteral("<iq id=\"%1\" to=\"%2\" from=\"%3\" type=\"result\"><query xmlns=\"http://jabber.org/protocol/bytestreams\">"
+                                      "<streamhost jid=\"%3\" host=\"127.0.0.1\" port=\"%4\"/></query></iq>")
+                           .arg(q.attribute(QStringLiteral("id")), SJID, proxyJid).arg(proxyServer.serverPort()));
+    }
+    QDomElement hosts = takeSent("query");
+    if (hosts.isNull()) {
+        // no usable local address (QXmppIceComponent::discoverAddresses() skips loopback): the job gives up by itself
+        if (!viaProxy) { ssendAvailable = false; sample("SOCKS5 sending side: no non-loopback address in this environment, direct scenarios not exercised"); }
+        cleanup(); stat("socks_send_skipped"); return;
+    }
+    const QString offerId = hosts.attribute(QStringLiteral("id"));
+    int port = 0;
+    for (QDomElement h = hosts.firstChildElement().firstChildElement(QStringLiteral("streamhost")); !h.isNull(); h = h.nextSiblingElement(QStringLiteral("streamhost")))
+        if (h.attribute(QStringLiteral("jid")) == SJID) port = h.attribute(QStringLiteral("port")).toInt();
+    auto used = [&](const QString &jid) {
+        w.s.receiveXml(QStringLiteral("<iq id=\"%1\" to=\"%2\" from=\"%3\" type=\"result\"><query xmlns=\"http://jabber.org/protocol/bytestreams\" sid=\"%4\">"
+                                      "<streamhost-used jid=\"%5\"/></query></iq>").arg(offerId, SJID, RJID, sid, jid));
+    };
+    auto finished = [&]() { return sj->state() == QXmppTransferJob::FinishedState; };
+    QByteArray got;
+    bool connected = false;
+    std::unique_ptr<QXmppSocksClient> peer;
+    QTcpSocket *stream = nullptr;
+    if (scenario == "direct-honest" || scenario == "direct-early-close") {
+        peer = std::make_unique<QXmppSocksClient>(QStringLiteral("127.0.0.1"), quint16(port));
+        bool ready = false;
+        QObject::connect(peer.get(), &QXmppSocksClient::ready, [&]() { ready = true; });
+        peer->connectToHost(sha1Host(sid, SJID, RJID), 0);
+        if (!spinUntil([&]() { return ready; }, 5000)) { ssendAvailable = false; cleanup(); stat("socks_send_skipped"); return; }
+        connected = true;
+        stream = peer.get();
+        used(SJID);
+    } else if (scenario == "direct-not-connected") {
+        used(SJID);                                 // "I connected to your server" — but nobody did
+    } else if (scenario == "unknown-host-used") {
+        used(QStringLiteral("somebody@else.example/x"));
+    } else if (viaProxy) {
+        used(proxyJid);                             // the peer says it went through the proxy: the sender connects there and activates
+        if (!spinUntil([&]() { return atProxy != nullptr || finished(); }, 5000) || !atProxy) { ssendAvailable = false; cleanup(); stat("socks_send_skipped"); return; }
+        QDomElement act;
+        spinUntil([&]() { if (act.isNull()) act = takeSent("query"); return !act.isNull() || finished(); }, 5000);
+        if (act.isNull()) { fprintf(stderr, "harness: no activation request\n"); exit(3); }
+        const QString type = scenario == "proxy-activation-refused" ? QStringLiteral("error") : QStringLiteral("result");
+        QString rep = QStringLiteral("<iq id=\"%1\" to=\"%2\" from=\"%3\" type=\"%4\">").arg(act.attribute(QStringLiteral("id")), SJID, proxyJid, type);
+        if (type == QLatin1String("error")) rep += QStringLiteral("<error type=\"cancel\"><not-allowed xmlns=\"urn:ietf:params:xml:ns:xmpp-stanzas\"/></error>");
+        w.s.receiveXml(rep + QStringLiteral("</iq>"));
+        connected = scenario != "proxy-activation-refused";
+        stream = atProxy;
+    }
+    if (stream && connected) {
+        if (scenario == "direct-early-close") {
+            spinUntil([&]() { return stream->bytesAvailable() > 0; }, 5000);
+            got = stream->read(1000);
+            stream->abort();                       // the peer goes away after a kilobyte
+        } else {
+            spinUntil([&]() { got += stream->readAll(); return got.size() >= data.size() || stream->state() != QAbstractSocket::ConnectedState; }, 20000);
+            got += stream->readAll();
+        }
+    }
+    spinUntil(finished, 10000);
+    QCoreApplication::processEvents();
+    const bool success = finished() && sj->error() == QXmppTransferJob::NoError;
+    const std::string outcome = !finished() ? "unfinished" : errName(sj->error());
+    corr("ssend " + scenario, outcome);
+    const bool shouldSucceed = scenario == "direct-honest" || scenario == "proxy-honest";
+    if (success && (!connected || (scenario != "direct-early-close" && got != data))) oracleFail("C19:socks-sender-success-without-delivery", scenario);
+    else if (success && scenario == "direct-early-close") oracleFail("C19:socks-sender-success-after-early-close", scenario);
+    else if (!success && shouldSucceed) oracleFail("C19:socks-sender-honest-run-not-successful", scenario + " -> " + outcome);
+    else if (!shouldSucceed && !(finished() && sj->error() == QXmppTransferJob::ProtocolError)) oracleFail("C19:socks-sender-fault-without-error-report", scenario + " -> " + outcome);
+    else oraclePass()++;
+    stat("socks_send_runs");
+    peer.reset();
+    cleanup();
+}
+
 // ------------------------------------------------------------------------------------------------ main
 int main(int argc, char **argv)
 {
@@ -818,6 +1003,22 @@ int main(int argc, char **argv)
     World world;
     W = &world;
 
+    if (a.mode == "hangprobe") {
+        // used to validate fixes/C19-ibb-inactivity-timeout.diff with a shortened interval: lose a block, wait in real time
+        Transfer t(2, 4096, true, QByteArray("hello"), DevSpec());
+        t.start();
+        t.apply("deliver"); t.apply("deliver"); t.apply("lose");
+        spinUntil([&]() { return t.rj->state() == QXmppTransferJob::FinishedState && t.sj->state() == QXmppTransferJob::FinishedState; }, a.seed * 1000);
+        printf("hangprobe R %s %s S %s %s\n", stateName(t.rj->state()), errName(t.rj->error()), stateName(t.sj->state()), errName(t.sj->error()));
+        return 0;
+    }
+    if (a.mode == "ssend") {
+        W->s.logger.setLoggingType(QXmppLogger::SignalLogging);
+        QObject::connect(&W->s.logger, &QXmppLogger::message, [](QXmppLogger::MessageType t, const QString &text) { fprintf(stderr, "LOG %d %s\n", int(t), qPrintable(text.left(300))); });
+        runSocksSend("proxy-honest", 5000, rng);
+        finish();
+        return 0;
+    }
     if (a.mode == "probe") {
         Case c { 2, 4096, true, "hex", QByteArray("hello"), {} };
         runCase(c);
@@ -1150,6 +1351,23 @@ int main(int argc, char **argv)
                     stat("socks_device_runs", 2);
                 }
             }
+        }
+        // ---- 6. SOCKS5 sending side (real outgoing job; harness = receiving peer and proxy)
+        runSocksSend("direct-honest", 5000, rng);
+        runSocksSend("direct-not-connected", 5000, rng);
+        runSocksSend("unknown-host-used", 5000, rng);
+        runSocksSend("direct-early-close", 64L * 1024 * 1024, rng);
+        runSocksSend("proxy-honest", 5000, rng);
+        runSocksSend("proxy-activation-refused", 5000, rng);
+        if (thorough) { runSocksSend("direct-honest", 3000000, rng); runSocksSend("proxy-honest", 300000, rng); }
+        // ---- 7. accept(filePath): the library opens (and should close) the file
+        {
+            QDir().mkpath(QStringLiteral("/verif/.build/scratch_c19"));
+            const QString path = QStringLiteral("/verif/.build/scratch_c19/accept_path_%1.bin").arg(QCoreApplication::applicationPid());
+            for (long n : { 0L, 1L, 5000L, 16384L, 20000L, 70000L }) runAcceptPath(makeContent("rnd", n, rng), path, "file");
+            QFile::remove(path);
+            if (QFile::exists(QStringLiteral("/dev/full"))) for (long n : { 1L, 5000L, 70000L }) runAcceptPath(makeContent("rnd", n, rng), QStringLiteral("/dev/full"), "full");
+            runAcceptPath(makeContent("rnd", 100, rng), QStringLiteral("/verif/.build/scratch_c19/no-such-dir/x.bin"), "unwritable");
         }
         if (!socksAvailable) sample("SOCKS5: loopback TCP not available in this environment, path not exercised");
     }
